@@ -32,8 +32,8 @@ type cond struct {
 	Hi int    `json:"hi"`
 }
 type export struct {
-	Points []point  `json:"points"`
-	Conds  []cond   `json:"conds"`
+	Points []point `json:"points"`
+	Conds  []cond  `json:"conds"`
 }
 
 type namedInt int64
@@ -51,9 +51,9 @@ var i64Of = map[string]int64{
 }
 
 type variant struct {
-	kind  string
-	v     any
-	json  bool // marshalable (usable end to end)
+	kind string
+	v    any
+	json bool // marshalable (usable end to end)
 }
 
 // variants lists Go values of every numeric kind that can hold the point exactly.
@@ -125,21 +125,22 @@ func variants(name string) []variant {
 }
 
 type obs struct {
-	ID    int      `json:"id"`
-	Vals  []int    `json:"vals"`  // point indices (1-based)
-	Kinds []string `json:"kinds"`
-	OK    []bool   `json:"ok"`    // ConvertToMinMaxInt64 reported numeric
-	CLo   []int    `json:"clo"`   // converted bounds as point indices (0 = not a point of the domain)
-	CHi   []int    `json:"chi"`
-	RLo   int      `json:"rlo"`   // block range as point indices
-	RHi   int      `json:"rhi"`
-	Eval  []bool   `json:"eval"`  // EvaluateMinMaxCondition(range, cond) for every condition
-	EvalM []bool   `json:"evalm"` // EvaluateDataBlockMetadata with MatchPrefilter(MinMax(...))
-	E2E   bool     `json:"e2e"`
-	Layout string  `json:"layout"`
-	CondIx []int   `json:"condix"` // conditions tried end to end (1-based)
-	Ret   [][]bool `json:"ret"`   // per tried condition: per value, was the row returned
-	Stored []bool  `json:"stored"` // per value: the row is stored (ingest acked nil)
+	Folded bool     `json:"folded"` // the block range was folded from two sub-ranges (merge path)
+	ID     int      `json:"id"`
+	Vals   []int    `json:"vals"` // point indices (1-based)
+	Kinds  []string `json:"kinds"`
+	OK     []bool   `json:"ok"`  // ConvertToMinMaxInt64 reported numeric
+	CLo    []int    `json:"clo"` // converted bounds as point indices (0 = not a point of the domain)
+	CHi    []int    `json:"chi"`
+	RLo    int      `json:"rlo"` // block range as point indices
+	RHi    int      `json:"rhi"`
+	Eval   []bool   `json:"eval"`  // EvaluateMinMaxCondition(range, cond) for every condition
+	EvalM  []bool   `json:"evalm"` // EvaluateDataBlockMetadata with MatchPrefilter(MinMax(...))
+	E2E    bool     `json:"e2e"`
+	Layout string   `json:"layout"`
+	CondIx []int    `json:"condix"` // conditions tried end to end (1-based)
+	Ret    [][]bool `json:"ret"`    // per tried condition: per value, was the row returned
+	Stored []bool   `json:"stored"` // per value: the row is stored (ingest acked nil)
 }
 
 func main() {
@@ -211,6 +212,36 @@ func main() {
 				}
 			}
 		}
+		// the same block range reached the way a merge reaches it: the values split into two source blocks whose ranges
+		// are folded together with UpdateMinMaxIndex(accumulated, other.Min, other.Max), in a random split and order
+		if have && len(vals) >= 2 && rng.Intn(2) == 0 {
+			var sub [2]bs.MinMaxIndex
+			var hv [2]bool
+			cut := 1 + rng.Intn(len(vals)-1)
+			for i, rv := range reals {
+				g := 0
+				if i >= cut {
+					g = 1
+				}
+				lo, hi, ok := bs.ConvertToMinMaxInt64(rv)
+				if !ok {
+					continue
+				}
+				if !hv[g] {
+					sub[g], hv[g] = bs.MinMaxIndex{Min: lo, Max: hi}, true
+				} else {
+					sub[g] = bs.UpdateMinMaxIndex(sub[g], lo, hi)
+				}
+			}
+			if hv[0] && hv[1] {
+				a, b := 0, 1
+				if rng.Intn(2) == 0 {
+					a, b = 1, 0
+				}
+				rng64 = bs.UpdateMinMaxIndex(sub[a], sub[b].Min, sub[b].Max)
+				o.Folded = true
+			}
+		}
 		if have {
 			o.RLo, o.RHi = pointOf[rng64.Min], pointOf[rng64.Max]
 			blk := &bs.DataBlockMetadata{MinMaxIndexes: map[string]bs.MinMaxIndex{"v": rng64}}
@@ -275,15 +306,28 @@ func runE2E(o *obs, reals []any, ex export, realCond func(cond) bs.NumericCondit
 	eng, err := bs.NewBloomSearchEngine(cfg, meta, data)
 	h.Must(err, "engine")
 	eng.Start()
+	// "merged": the values go into two files of different sizes (one value / the rest, either way round) so that the
+	// merge folds a smaller block's range and a larger block's range together in both containment directions
+	cut := -1
+	if o.Layout == "merged" && len(reals) >= 2 {
+		if rng.Intn(2) == 0 {
+			cut = 1
+		} else {
+			cut = len(reals) - 1
+		}
+	}
 	for i, v := range reals {
 		done := make(chan error, 1)
 		h.Must(eng.IngestRows(context.Background(), []map[string]any{{"id": fmt.Sprintf("r%d", i+1), "v": v}}, done), "ingest")
-		if o.Layout != "oneblock" {
+		switch {
+		case o.Layout == "oneblock":
+			o.Stored = append(o.Stored, true)
+		case cut > 0 && i+1 != cut && i+1 != len(reals):
+			// stays buffered until its file's last row arrives
+			o.Stored = append(o.Stored, true)
+		default:
 			h.Must(eng.Flush(context.Background()), "flush")
 			o.Stored = append(o.Stored, <-done == nil)
-		} else {
-			defer func(i int, d chan error) {}(i, done)
-			o.Stored = append(o.Stored, true)
 		}
 	}
 	h.Must(eng.Flush(context.Background()), "flush")
